@@ -2,11 +2,11 @@
    64-bit field (F64_ops, F64_laws) and discharges ALL its hypotheses.  stdlib style. *)
 From Coq Require Import List Arith ZArith Lia Ring Field.
 From VBase Require Import FieldOps ZpOps.
-From VModel Require Import Composition CompositionLagrange.
+From VModel Require Import Composition CompositionLagrange CompositionMixed ExtField.
 From VModel Require Enforce EnforceLagrange.
 From VModel Require FFT Stark.
 From VProofs Require FFTSpec FFTEval FFTOffset StarkPoly.
-From VProofs Require Import ZpLaws CompositionBase CompositionIndex CompositionVerifier CompositionTable CompositionFFT CompositionValid CompositionLagrange CompositionLagrangeTable.
+From VProofs Require Import ZpLaws CompositionBase CompositionIndex CompositionVerifier CompositionTable CompositionFFT CompositionValid CompositionLagrange CompositionLagrangeTable CompositionLagrangePoly CompositionMixed CompositionMixedInst ExtModel ExtConcrete.
 Import ListNotations.
 Local Open Scope nat_scope.
 
@@ -166,6 +166,42 @@ Proof.
   apply (verifier_lagrange_agrees O64 F64_laws 2 2 2 1 ltac:(lia) ltac:(lia) ltac:(lia) ltac:(lia) 1 ldeLagA ltac:(reflexivity) tLagA [e64 9] (e64 4));
     try lia; try reflexivity; try exact Hc.
   intros idx Hi. assert (idx = 0) by lia. subst. reflexivity.
+Qed.
+
+(* ------------------------------------------------------------------ round 7: Lagrange terms as polynomials, n = 2 (v = 1),
+   g = -1, random element r_0 = 9; kernel column [1 - r_0, r_0], its polynomial L = 1/2 + (1 - 2 r_0)/2 x *)
+Definition r0L : Fq := e64 9.
+Definition half : Fq := finv O64 (e64 2).
+Definition LpK : list Fq := [half; fmul O64 half (fsub O64 (fone O64) (fmul O64 (e64 2) r0L))].
+
+Example lag_def_is_poly_instance :
+  exists Q, length Q <= length LpK /\ forall x, lag_good O64 1 x ->
+    lag_def O64 2 rouA 1 LpK tLagA [r0L] (e64 4) x = peval O64 Q x.
+Proof.
+  apply (lag_def_is_poly O64 F64_laws 2 1 m1 eq_refl).
+  - split; [zpc|]. intros i j Hi Hj Hij. destruct i as [|[|]]; destruct j as [|[|]]; try lia; try reflexivity;
+      exfalso; apply (f_equal (@zp_val P64)) in Hij; vm_compute in Hij; discriminate.
+  - reflexivity.
+  - intros idx j Hi Hj. assert (idx = 0) by lia. subst. assert (j = 0) by (simpl in Hj; lia). subst. zpc.
+  - zpc.
+  - reflexivity.
+Qed.
+
+(* round 7: the embedding into the quadratic extension of f64: a main boundary constraint with base-field state / polynomial
+   and an extension-field coefficient *)
+Example boundary_repr_equiv_ext_instance : forall step, step < 2 * 2 ->
+  let OE := q_ops F64_ops (f64_x2 F64_ops) in
+  let xB := ce_x O64 2 2 (e64 7) rouA step in
+  let spec := Some (fmul OE (e64 3, e64 5) (bc_evaluate_at_mixed O64 OE (q_from_base O64) [e64 1; e64 2] (cpow O64 m1 1)
+                                                            (q_from_base O64 xB) (q_from_base O64 (e64 9)))) in
+  small_eval_mixed O64 (q_mul_base (f64_x2 F64_ops)) 0 [e64 1; e64 2] (cpow O64 m1 1) (e64 3, e64 5) [e64 9] xB = spec
+  /\ large_eval_mixed O64 (q_mul_base (f64_x2 F64_ops)) 0 (eval_poly_with_offset O64 rouA [e64 1; e64 2] (e64 7) (2 * 2 / 2)) (1 * 2)
+                      (e64 3, e64 5) [e64 9] step = spec
+  /\ (length [e64 1; e64 2] = 1 -> single_eval_mixed O64 (q_mul_base (f64_x2 F64_ops)) 0 (e64 1) (e64 3, e64 5) [e64 9] = spec).
+Proof.
+  intros step Hstep.
+  apply (boundary_repr_equiv_ext O64 _ F64_laws f64_quad_laws _ _ quad_f64_emb 2 2 (e64 7) rouA ltac:(lia) ltac:(lia) i4_order i4_sq m1 m1_inv
+           0 1 [e64 1; e64 2] (e64 3, e64 5) [e64 9] (e64 9) eq_refl ltac:(simpl; lia) ltac:(lia) eq_refl step Hstep).
 Qed.
 
 Section TwoPoint.
